@@ -405,6 +405,9 @@ func execC19Check(in sx.V) sx.V {
 	srv := c19Server(c19ExecFromSx(l[4]), secret, l[1].Int.Int64(), l[2].Int.Int64())
 	tp := c19ProofFromSx(l[5])
 	ok, key, err := srv.CheckProof(context.Background(), tp, srv.CheckPayload, c19DomainFunc(l[3]))
+	if c19PayloadVerdictIgnored(srv, tp, c19DomainFunc(l[3]), err == nil && ok) {
+		return sx.L(sx.A("payload-verdict-ignored"))
+	}
 	if err != nil || !ok {
 		if ok || key != nil {
 			return sx.L(sx.A("inconsistent-result"))
@@ -412,6 +415,36 @@ func execC19Check(in sx.V) sx.V {
 		return sx.A("err")
 	}
 	return sx.L(sx.B(true), sx.Bytes(key))
+}
+
+// The payload check is a callback (like the domain check): an application may wrap
+// Server.CheckPayload (one-time payloads, metrics) and report a refusal as (false, nil),
+// the way the library's own StaticDomain does.  CheckProof must follow the boolean verdict:
+// with a checker that gives CheckPayload's verdict without its error the result is the
+// same as with CheckPayload itself, and a checker that refuses (with or without an error)
+// never leads to an accepted proof.
+func c19PayloadVerdictIgnored(srv *tonconnect.Server, tp *tonconnect.Proof, dom func(string) (bool, error), accepted bool) (bad bool) {
+	defer func() {
+		if r := recover(); r != nil {
+			bad = true
+		}
+	}()
+	verdictOnly := func(p string) (bool, error) { ok, _ := srv.CheckPayload(p); return ok, nil }
+	ok1, _, err1 := srv.CheckProof(context.Background(), tp, verdictOnly, dom)
+	if (err1 == nil && ok1) != accepted {
+		return true
+	}
+	if accepted {
+		refuse := func(string) (bool, error) { return false, nil }
+		refuseErr := func(string) (bool, error) { return false, fmt.Errorf("payload already used") }
+		if ok2, _, err2 := srv.CheckProof(context.Background(), tp, refuse, dom); err2 == nil && ok2 {
+			return true
+		}
+		if ok3, _, err3 := srv.CheckProof(context.Background(), tp, refuseErr, dom); err3 == nil && ok3 {
+			return true
+		}
+	}
+	return false
 }
 
 // c19.genpayload (secret ltpayload other): the real GeneratePayload of a server with `secret`;
